@@ -18,8 +18,7 @@ def store_trees(eng, st, s):
     R = z3.Select(st.H('rules'), V.ref(s))
     m = V.m(z3.Select(st.H('$val'), V.ref(R)))
     k = z3.String('vt!k')
-    return z3.And(V.is_obj(R), cx_isdict(eng, R), V.is_dict(z3.Select(st.H('$val'), V.ref(R))), fp(V.ref(R)),
-                  fp(V.ref(s)),
+    return z3.And(V.is_obj(R), cx_isdict(eng, R), V.is_dict(z3.Select(st.H('$val'), V.ref(R))),
                   qforall([k], z3.Implies(z3.Select(m, k) != ABSENT, wf_tree(z3.Select(m, k))),
                           patterns=[z3.Select(m, k)]))
 
